@@ -113,6 +113,23 @@ def run(ctx, module, weights, tags, n_quick=250, len_quick=60, n_thorough=4000, 
         exez, oz = common.cargo_build_bin(ctx, "hist", features=("std", "serde", "stable_deref_trait", "unsize", "arc-swap", "zst"))
         if exez:
             zn, zdis, zmon, zcr = hist.run_zst_pass(ctx, hs, exez, model)
+            # iterator-based constructors with zero-sized elements: monitor only (refusal or a correct handle)
+            zin, zifails, zicr, zihs = hist.run_zst_iter_pass(exez, hs)
+            ctx.coverage["zst_iterator_histories"] = zin
+            mine_zi = [x for x in zifails if set(x[2]) & set(tags)]
+            ctx.oblige("monitor:zst-iterator-constructors", not mine_zi and not zicr, "%d failures, %d crashes" % (len(mine_zi), len(zicr)))
+            if mine_zi or zicr:
+                if mine_zi:
+                    hi, k, props, msg = mine_zi[0]
+                    ops_z = zihs[hi][:k + 1]
+                else:
+                    ops_z, msg = zihs[zicr[0][0]], "the harness process died (status %s)" % zicr[0][1]
+                il_z, _ = hist.run_batch(exez, "\n".join(ops_z) + "\n", timeout=60)
+                body = ["failing history with a ZERO-SIZED element type (the harness built with `Tracked` as a unit struct):", ""]
+                for kk, op in enumerate(ops_z):
+                    body += ["op   : " + op, "  impl : " + (il_z[kk] if kk < len(il_z) else "<none>")]
+                body += ["  PROPERTY %s FAILS HERE: %s" % (ctx.prop, msg), "", "CONFIG zst"] + ["OP " + o for o in ops_z]
+                ctx.violation("ops", "\n".join(body), True)
             zres = (exez, zn, zdis, zmon, zcr)
             configs.append("debug, zero-sized payload type (%d histories with sized constructors only; projected comparison)" % zn)
     # differences that concern another property's subject do not break THIS property's tie (hist.relevant); they are
